@@ -326,7 +326,7 @@ func checkC13(c *Ctx) {
 		if strings.HasSuffix(ri.Suffix, ".yaml") {
 			continue
 		}
-		ex := c.Explore(ri.Fn, 1, 6000)
+		ex := c.ExploreT(ri.Fn, 6000)
 		isGo := strings.HasSuffix(ri.Suffix, ".go")
 		for _, v := range ex.Variants {
 			for _, u := range v.Units {
@@ -742,7 +742,7 @@ func bareForeignTypeNames(c *Ctx, rid string, roots []RootInfo) {
 	bare := map[string]agg{}
 	okIdent := 0
 	for _, ri := range roots {
-		ex := c.Explore(ri.Fn, 1, 6000)
+		ex := c.ExploreT(ri.Fn, 6000)
 		for _, v := range ex.Variants {
 			for _, u := range v.Units {
 				for _, l := range u.Lines {
